@@ -251,9 +251,17 @@ fn edit_history_script(rng: &mut SplitMix, thorough: bool) -> NucleoScript {
             items.push(cols);
         }
     }
-    let writers = vec![vec![WOp::Extend { items, lie: Lie::Honest, panic_at: None }]];
+    let mut writers = vec![vec![WOp::Extend { items, lie: Lie::Honest, panic_at: None }]];
     let mut ui = vec![UiOp::Spawn { w: 0, h: 0, move_handle: true }];
     if rng.below(2) == 0 {
+        ui.push(UiOp::Quiesce);
+    }
+    if rng.below(20) == 0 {
+        // "killer batch": the whole stream is one batch whose haystack lengths are, in index
+        // order, an input that defeats the quicksort of the tree under test; matched with equal
+        // scores first, so that the worker's sort runs into its heapsort fallback
+        writers = vec![vec![WOp::ExtendKiller { n: pick(rng, &[40u32, 64, 96, 97, 150, 300]), seed: rng.next() }]];
+        ui.push(UiOp::Reparse { col: 0, text: "a".into() });
         ui.push(UiOp::Quiesce);
     }
     for (k, (c, t)) in plan.into_iter().enumerate() {
